@@ -204,6 +204,41 @@ def r05_4(ctx, fx):
                    detail="TransportEvent::%s reachable although %s returned %s (cuts=%d)" % (agg_var, call_rx, ch, len(cuts)))
 
 
+def r05_6(ctx, fx):
+    """on_connection_opened: once PeerState::on_connection_opened advanced the peer to Dialing (true edge), every exit either
+    tracks the negotiation (pending_connections.insert) or rolls the peer back to a dialable state; `on_open_failure` is not a
+    rollback here because it only acts on the Opening state the peer has just left"""
+    fn = ctx.fn(fx, TM + "on_connection_opened", "R05.6")
+    if fn is None:
+        return
+    adv = fn.calls(r"PeerState::on_connection_opened$")
+    ctx.anchor("R05.6", "on_connection_opened: PeerState::on_connection_opened", len(adv), 1, cfg=fx.cfg)
+    commit = [c.node for c in field_calls(fn, r"HashMap::insert$", "pending_connections")]
+    rollback = [c.node for c in fn.calls(r"PeerState::on_dial_failure$")]
+    for n, st in fn.assigns():
+        if "".join(st["lhs"][1:]).endswith(".state") and st["rv"]["r"] in ("agg", "use"):
+            sh = fn.shape(st["rv"]["o"]) if st["rv"]["r"] == "use" else {st["rv"].get("var", "")}
+            if any(x.startswith("Disconnected") for x in sh):
+                rollback.append(n)
+    ctx.anchor("R05.6", "on_connection_opened: commit + rollback sites", min(len(commit), len(rollback)), 1, cfg=fx.cfg)
+    for a in adv[:1]:
+        tests = fn.bool_tests(a.dest[0])
+        starts = [m for sw, t, f in tests for m, l in fn.succs(sw) if l == t]
+        exits = [x for x, _ in fn.exits()]
+        p = fn.witness_path(starts, exits, avoid=commit + rollback) if starts else [a.node]
+        # exits that stem from the documented state-mismatch arm (previous state was not Opening) are not reachable once the
+        # transition reported success; they return before touching a transport - tolerate only exits that precede any transport call
+        if p is not None:
+            tr = [c.node for c in fn.calls(r"Transport>?::(negotiate|cancel)$")]
+            p2 = fn.witness_path(tr, exits, avoid=commit + rollback, after=True) if tr else p
+            ok = p2 is None
+            wit = p2
+        else:
+            ok, wit = True, None
+        ctx.ob("R05.6", "on_connection_opened/after-advance-commit-or-rollback", ok, site=fn.site(a.node), cfg=fx.cfg,
+               detail="a path that leaves the peer Dialing with nothing tracking the dial: %s" % (fn.path_sites(wit) if wit else None))
+
+
 def run(ctx):
     ctx.assume("R05.3: a peer with a tracked dial has an entry in TransportManager.peers (created by dial/dial_address)")
     for cfg in ctx.configs():
@@ -213,3 +248,4 @@ def run(ctx):
             r05_2(ctx, fx)
             r05_3(ctx, fx)
             r05_4(ctx, fx)
+            r05_6(ctx, fx)
